@@ -243,3 +243,64 @@ def run_option_sets(ctx, cases, combos, per_case_selections, what, clause, tie=T
                        'spine_types': s.get('types'), 'spine_ids': s.get('ids'), 'clause': clause}
                 ctx.count('enc:%s' % enc)
                 ctx.check(inp, got, model, sp, nontrivial=(nontrivial(case) if nontriv is None else nontriv(case, combo, s)), what=what)
+
+
+# ------------------------------------------------------------------ the reference spine-path tracker on the abstract grid
+def grid_tree(adoc):
+    """Independent reading of the source grid: stage of every row, and for every cell its expected parent coordinate,
+    header coordinate and spine id.  Returns (stages, order) where stages[s] = list of dict(parent, hdr, spine, kind, cell)
+    and s = 1 + index of the row among all (non-empty) lines."""
+    stages = [[{'parent': None, 'hdr': None, 'spine': None, 'kind': 'root', 'cell': None}]]
+    last_pre = (0, 0)
+    prev = None          # list of coords: the parent of column j of the next cells-row
+    hdr_of = None        # parallel to prev: header coordinate
+    for row in adoc['rows']:
+        s = len(stages)
+        if row['kind'] == 'global':
+            stages.append([{'parent': last_pre, 'hdr': None, 'spine': None, 'kind': 'global', 'cell': row}])
+            last_pre = (s, 0)
+            continue
+        cur, nxt, nxt_h = [], [], []
+        cells = row['cells']
+        j = 0
+        for j, c in enumerate(cells):
+            if c['k'] == 'header':
+                cur.append({'parent': last_pre, 'hdr': (s, j), 'spine': j, 'kind': 'header', 'cell': c})
+            else:
+                cur.append({'parent': prev[j], 'hdr': hdr_of[j], 'spine': row['live'][j], 'kind': c['k'], 'cell': c})
+        j = 0
+        while j < len(cells):
+            c = cells[j]
+            h = cur[j]['hdr']
+            if c['k'] == 'op' and c['text'] in ('*^', '*+'):
+                nxt += [(s, j), (s, j)]; nxt_h += [h, h]
+            elif c['k'] == 'op' and c['text'] == '*v':
+                k = j
+                while k + 1 < len(cells) and cells[k + 1]['k'] == 'op' and cells[k + 1]['text'] == '*v' and cur[k + 1]['hdr'] == h:
+                    k += 1
+                nxt.append((s, j)); nxt_h.append(h)
+                j = k
+            elif c['k'] == 'op' and c['text'] == '*-':
+                pass
+            else:
+                nxt.append((s, j)); nxt_h.append(h)
+            j += 1
+        stages.append(cur)
+        if nxt:
+            prev, hdr_of = nxt, nxt_h
+    return stages
+
+
+def preorder(stages):
+    """depth-first order of the grid tree: children in creation order (stage major, then column)"""
+    kids = {}
+    for s, st in enumerate(stages):
+        for i, n in enumerate(st):
+            if n['parent'] is not None:
+                kids.setdefault(tuple(n['parent']), []).append((s, i))
+    out, stack = [], [(0, 0)]
+    while stack:
+        c = stack.pop()
+        out.append(c)
+        stack.extend(reversed(kids.get(c, [])))
+    return out
